@@ -101,6 +101,7 @@ def grid_cases(draw):
     case["extra"] = [draw(gen.finite(-100, 100)) for _ in range(case["n_extra"])]
     case["nonuniform"] = draw(st.booleans())
     case["explicit_region"] = draw(st.booleans())
+    case["descending"] = draw(st.sampled_from(["none", "none", "north", "east", "both"]))
     case["orders"] = draw(vbuild.orders_strategy())
     return case
 
@@ -167,6 +168,11 @@ def check_grid(case, ctx):
         ee1, nn1 = vd.grid_coordinates(region, shape=tuple(case["shape"]), meshgrid=False)
         if case["nonuniform"]:
             ee1 = ee1 + 0.01 * (ee1 - ee1[0]) ** 2 / max(ee1[-1] - ee1[0], 1e-300)
+        # explicit coordinates need not be ascending (north-up rasters have a descending northing)
+        if case.get("descending") in ("north", "both"):
+            nn1 = nn1[::-1].copy()
+        if case.get("descending") in ("east", "both"):
+            ee1 = ee1[::-1].copy()
         if case["mode"] == "coords1d":
             coords = (ee1, nn1)
             n_extra = 0
@@ -237,6 +243,13 @@ def check_grid(case, ctx):
 def profile_cases(draw):
     p1 = [draw(gen.nice_or_free(-100, 100)), draw(gen.nice_or_free(-100, 100))]
     p2 = [draw(gen.nice_or_free(-100, 100)), draw(gen.nice_or_free(-100, 100))]
+    shape_kind = draw(st.sampled_from(["free", "free", "free", "same", "horizontal", "vertical"]))
+    if shape_kind == "same":
+        p2 = list(p1)
+    elif shape_kind == "horizontal":
+        p2[1] = p1[1]
+    elif shape_kind == "vertical":
+        p2[0] = p1[0]
     return dict(p1=p1, p2=p2, size=draw(st.integers(1, 30)), ncomp=draw(st.integers(1, 3)), projection=draw(proj_desc), custom_dims=draw(st.booleans()),
                 custom_names=draw(st.booleans()), n_extra=draw(st.integers(0, 2)), extra=[draw(gen.finite(-10, 10)) for _ in range(2)])
 
